@@ -5,11 +5,11 @@ CONSTANTS
   Cores = {3}
   Slurm = {0}
   PutVals = {}
-  SetVals = {2}
+  SetVals = {}
   NbVals = {}
   Starts = {}
   Hows = {"default", "spawn"}
-  POps = {"import", "set", "kernel", "launch"}
+  POps = {"import", "kernel", "launch"}
   COps = {"import", "kernel"}
   NW = 0
   MaxDepth = 4
